@@ -122,6 +122,8 @@ SRC_RAW = {
     "C09": ["SrcLayout", "SrcObserve", "SrcObs", "SrcRowVocab"],
     "C11": ["SrcAct"],
     "C12": ["SrcAct"],
+    "C17": ["SrcLoad"],
+    "C18": ["SrcLoad"],
     "C20": ["SrcBound"],
 }
 for _pid, _mods in SRC_RAW.items():
